@@ -245,6 +245,7 @@ def run(ctx):
     const_this_protocol(ctx)
     runtime_sized_allocations_checked(ctx)
     keyword_matching_polarity(ctx)
+    unchecked_extractor_needs_const_ok(ctx)
 
 
 def _canon_arm(db, f, stmts, label):
@@ -578,3 +579,28 @@ def keyword_matching_polarity(ctx):
                 ctx.ob("R02.9", "%s(%d)|%s|true-iff-equal" % (f.name, len(f.params), callee_short(c)), equal, f.loc(c),
                        "`%s` as used in the return is true iff the key %s the keyword" % (show(c)[:50], "EQUALS" if equal else "DIFFERS from"))
     ctx.floor("R02.9", "keyword comparisons in the argument extractors", n, 2)
+
+
+def unchecked_extractor_needs_const_ok(ctx):
+    """R02.10: a wrapped-object argument is extracted either with DTOOL_Call_GetPointerThisClass(..., const_ok, ...),
+    which refuses a const wrapper when the C++ parameter is a non-const pointer/reference, or - "slightly simpler" - with
+    DtoolInstance_GetPointer(), which does not look at constness at all.  The second may be emitted only where const_ok
+    holds; otherwise Python can pass a const object to a function that mutates it.  (Seed S7-C02.)"""
+    db = ctx.db
+    ctx.rule("R02.10", "in write_function_instance, text that extracts an argument with DtoolInstance_GetPointer( is emitted only behind `const_ok`")
+    f = db.fn("InterfaceMakerPythonNative::write_function_instance")
+    ok_decl = None
+    for y in f.walk():
+        if y.get("k") == "decls":
+            for d in y["d"]:
+                if d.get("n") == "const_ok" and (d.get("ct") or d.get("t")) == "bool":
+                    ok_decl = d
+    if ok_decl is None:
+        ctx.broken("R02.10: the local bool `const_ok` of write_function_instance was not found")
+    edges = G.edges_where(f, G.local_true(ok_decl["d"]))
+    lits = [x for x in f.walk() if x.get("k") == "str" and "DtoolInstance_GetPointer(" in (x.get("v") or "")]
+    for i, x in enumerate(lits):
+        ok = bool(edges) and G.gated(f, x, edges)
+        ctx.ob("R02.10", "write_function_instance|DtoolInstance_GetPointer#%d|behind-const_ok" % i, ok, f.loc(x),
+               "the constness-blind extractor is %semitted only where const_ok holds" % ("" if ok else "NOT "))
+    ctx.floor("R02.10", "emissions of DtoolInstance_GetPointer in write_function_instance", len(lits), 1)
